@@ -288,6 +288,15 @@ class PeerCase:
                     continue              # nothing scripted: stay silent
                 r = reactions.pop(0)
                 st["ri"] = st.get("ri", -1) + 1
+                if r.get("tls_drop_first") and ch.tls is not None:
+                    # a server that ends the TLS session on its own (close-notify, the TCP connection stays) and goes on
+                    # in clear text: its answer - and whatever the client sends from now on - is outside TLS
+                    ch.tls_shutdown(wait_peer=False)
+                    ch.tls = None
+                    ch.inb = ch.outb = None
+                    ch.plain_buf = bytearray()
+                    buf.clear()
+                    slog["stayed_plain_from"] = len(slog["lines"])
                 self._react(st, r, line)
                 if r.get("starttls"):
                     slog["raw_mark"] = len(ch.raw_in)
@@ -412,7 +421,7 @@ class PeerCase:
         if b"{" not in text:
             return text
         port = st.get("listen_port", 0)
-        a = st["slog"]["addr"]
+        a = st.get("listen_addr") or st["slog"]["addr"]
         text = text.replace(b"{P}", str(port).encode())
         text = text.replace(b"{p1}", str(port // 256).encode()).replace(b"{p2}", str(port % 256).encode())
         if ":" not in a:
@@ -529,11 +538,16 @@ class PeerCase:
             except OSError:
                 pass
         a = st["slog"]["addr"]
+        if r.get("listen_addr_off") and ":" not in a:
+            q = a.split(".")
+            a = "127.0.0.%d" % (1 + (int(q[3]) - 1 + 7 * r["listen_addr_off"]) % 200)      # another loopback address
+        st["listen_addr"] = a
         fam = socket.AF_INET6 if ":" in a else socket.AF_INET
         ls = socket.socket(fam, socket.SOCK_STREAM)
         ls.bind((a, 0))
         st["listen_port"] = ls.getsockname()[1]
         st["slog"].setdefault("announced_ports", []).append(st["listen_port"])
+        st["slog"].setdefault("announced_addrs", []).append(a)
         if r.get("listen") == "dead":
             ls.close()                   # announce a port nobody listens on
             st["data_listener"] = None
